@@ -225,5 +225,6 @@ RULES = [
     ("C18.trav", rule_trav),
     ("C18.trav", rule_trav_skel),
     ("C18.post", rule_post),
+    ("C18.compat", lambda c, r: __import__("sa.rules.c20", fromlist=["x"]).rule_orders_compat(c, r, "C18.compat", lambda kind, mo: (kind, mo) in (("store", "release"), ("load", "consume")))),   # rcu_assign_pointer / rcu_dereference in a caller compiled below C11: the publication store keeps its compiler barrier in front (a node is fully initialised before it is reachable)
 ]
 FLOORS = {}
